@@ -9,10 +9,12 @@ EXTENDS Universe, Path
 o1 == Obj(<< <<ka, u1>>, <<kb, sab>> >>)
 o2 == Obj(<< <<ka, u2>>, <<kb, Null>> >>)
 o3 == Obj(<< <<ka, f15>>, <<kab, True>> >>)
+o5 == Obj(<< <<ka, u1>>, <<kb, Null>> >>)
+o6 == Obj(<< <<ka, u2>>, <<kb, sab>> >>)
 o4 == Obj(<< <<ka, Arr(<<u1, u2>>)>>, <<kb, Obj(<< <<ka, sa>> >>)>> >>)
 PathDocs ==
   {Null, u1, sab, True, Arr(<<>>), Obj(<<>>), Arr(<<u1>>), Arr(<<u1, u2, u256>>), Arr(<<Null, True, False, sEmpty>>),
-   Arr(<<sa, sab, sb>>), Arr(<<o1, o2, o3>>), Arr(<<o1, u1, o4, Arr(<<u2, o2>>)>>), o1, o2, o4,
+   Arr(<<sa, sab, sb>>), Arr(<<o1, o2, o3>>), Arr(<<o5, o2, o1, o6>>), Arr(<<o1, u1, o4, Arr(<<u2, o2>>)>>), o1, o2, o4,
    Obj(<< <<ka, Arr(<<o1, o2>>)>>, <<kb, u2>> >>), Obj(<< <<ka, Obj(<< <<ka, Obj(<< <<ka, u1>> >>)>> >>)>> >>),
    Arr(<<Arr(<<u1, u2>>), Arr(<<>>), Arr(<<u256>>)>>), Obj(<< <<kEmpty, u1>>, <<kE, Arr(<<i1, f1, u1>>)>> >>),
    Arr(<<u2p53, u2p53p1, f2p53>>), Arr(<<im1, u0, fm0, f15>>),
